@@ -250,6 +250,7 @@ def _final_value(fn, sym, var):
 def site_sample_ball():
     tree, _ = T.load("mouette/sampling.py")
     fn = T.find_def(tree, "sample_ball")
+    _no_writes(fn, {"center", "radius"})
     sym = Sym({"center": "center", "radius": "radius"}, [_atom_normal_dir, _atom_norm, _atom_uniform, _atom_reshape, _atom_cbrt])
     body, ret = _final_value(fn, sym, "pts")
     sym.run(body, {"pts", "R"})
@@ -319,6 +320,7 @@ def _atom_meshgrid(sym, node):
 def site_sample_aabb():
     tree, _ = T.load("mouette/sampling.py")
     fn = T.find_def(tree, "sample_AABB")
+    _no_writes(fn, {"box"})
     chain = [s for s in fn.body if isinstance(s, ast.If) and isinstance(s.test, ast.Compare) and ast.unparse(s.test).startswith("mode ==")]
     if len(chain) != 1: raise TranslateError("mode dispatch `if mode==...` not found")
     top = chain[0]
@@ -437,7 +439,7 @@ def _enumerate_loop(fn, pts_name):
 def _store_row(stmt, arr, counter):
     """`arr[counter,:] = value` -> value"""
     if isinstance(stmt, ast.Assign) and len(stmt.targets) == 1 and isinstance(stmt.targets[0], ast.Subscript) \
-            and ast.unparse(stmt.targets[0]) == f"{arr}[{counter}, :]":
+            and ast.unparse(stmt.targets[0]) in (f"{arr}[{counter}, :]", f"{arr}[{counter}]", f"{arr}[{counter}, ...]", f"{arr}[{counter}][:]"):
         return stmt.value
     return None
 
@@ -494,10 +496,52 @@ def _wrap_check(fn, arr):
     return last
 
 
+def _no_writes(fn, names):
+    """the sampler only READS its domain arguments: no assignment / augmented assignment / item store whose target is
+    rooted at one of `names`, no attribute-creating or mutating method called on them, and attributes computed through
+    mouette.attributes are non-persistent (nothing is stored on, or later re-read from, the mesh)"""
+    def root(n):
+        while isinstance(n, (ast.Attribute, ast.Subscript)): n = n.value
+        return n.id if isinstance(n, ast.Name) else None
+    for n in ast.walk(fn):
+        tg = []
+        if isinstance(n, ast.Assign): tg = n.targets
+        elif isinstance(n, (ast.AugAssign, ast.AnnAssign)): tg = [n.target]
+        for t in tg:
+            for e in (t.elts if isinstance(t, ast.Tuple) else [t]):
+                if root(e) in names and not (isinstance(e, ast.Name)):
+                    raise TranslateError(f"the sampler writes into its argument: {ast.unparse(n)}")
+                if isinstance(n, ast.AugAssign) and root(e) in names:
+                    raise TranslateError(f"the sampler updates its argument in place: {ast.unparse(n)}")
+        if isinstance(n, ast.Call) and isinstance(n.func, ast.Attribute) and root(n.func) in names \
+                and n.func.attr in ("create_attribute", "append", "clear", "delete_attribute", "pad", "register", "get_attribute", "has_attribute"):
+            raise TranslateError(f"the sampler stores / looks up state on its argument: {ast.unparse(n)}")
+        if isinstance(n, ast.Call) and isinstance(n.func, ast.Name) and n.func.id in ("face_area", "face_normals", "edge_length"):
+            kws = {k.arg: ast.unparse(k.value) for k in n.keywords}
+            if kws.get("persistent") != "False":
+                raise TranslateError(f"attribute computed persistently (stored on the mesh): {ast.unparse(n)}")
+    return True
+
+
+def _float_buffer(fn, arr):
+    """`<arr> = np.zeros((n_pts, 3))` with the default (float) dtype: samples of integer-typed meshes are not truncated"""
+    for s in fn.body:
+        if isinstance(s, ast.Assign) and isinstance(s.targets[0], ast.Name) and s.targets[0].id == arr:
+            v = s.value
+            if isinstance(v, ast.Call) and _is_attr_chain(v.func, ["np", "zeros"]) and len(v.args) == 1 \
+                    and ast.unparse(v.args[0]).replace(" ", "") == "(n_pts,3)" \
+                    and all(k.arg == "dtype" and ast.unparse(k.value) in ("float", "np.float64", "np.double") for k in v.keywords):
+                return True
+            raise TranslateError(f"output buffer is not a float array np.zeros((n_pts,3)): {ast.unparse(s)}")
+    raise TranslateError(f"output buffer {arr} not found")
+
+
 def site_sample_surface():
     tree, _ = T.load("mouette/sampling.py")
     fn = T.find_def(tree, "sample_surface")
     _len_of(fn, "NF", "faces")
+    _float_buffer(fn, "sampled_pts")
+    _no_writes(fn, {"mesh"})
     prob, sel = _prob_block(fn.body, "face_area", "NF", "faces")
     lp, counter, fvar, it = _enumerate_loop(fn, "sampled_pts")
     if it != sel: raise TranslateError(f"sampling loop iterates `{it}`, not the faces drawn by choice (`{sel}`)")
@@ -558,6 +602,8 @@ def site_sample_polyline():
     tree, _ = T.load("mouette/sampling.py")
     fn = T.find_def(tree, "sample_polyline")
     _len_of(fn, "NE", "edges")
+    _float_buffer(fn, "sampled_pts")
+    _no_writes(fn, {"mesh"})
     ifs = [s for s in fn.body if isinstance(s, ast.If) and isinstance(s.test, ast.Compare) and "NE" in ast.unparse(s.test)]
     if len(ifs) != 1: raise TranslateError("guard on NE not found")
     gd = ifs[0]
@@ -598,6 +644,7 @@ def site_sample_polyline():
 def site_sample_sphere():
     tree, _ = T.load("mouette/sampling.py")
     fn = T.find_def(tree, "sample_sphere")
+    _no_writes(fn, {"center", "radius"})
     sym = Sym({"center": "center", "radius": "radius"}, [_atom_normal_dir, _atom_norm, _atom_reshape])
     body, ret = _final_value(fn, sym, "pts")
     sym.run(body, {"pts"})
@@ -631,7 +678,15 @@ def site_de_casteljau():
         raise TranslateError(f"guard compares something else than t and constants: {ast.dump(n)[:80]}")
     raise_cond = bool_expr(g.test, tterm)
     # copy + order
-    if ast.unparse(cp) != "coeffs = [x for x in P]": raise TranslateError(f"coefficient copy changed: {ast.unparse(cp)}")
+    # the working list must be a (shallow) COPY of P: slots of P itself are never re-bound
+    if not (isinstance(cp, ast.Assign) and len(cp.targets) == 1 and isinstance(cp.targets[0], ast.Name) and cp.targets[0].id == "coeffs"):
+        raise TranslateError(f"coefficient copy changed: {ast.unparse(cp)}")
+    v = cp.value
+    is_copy = (isinstance(v, ast.ListComp) and len(v.generators) == 1 and isinstance(v.generators[0].target, ast.Name)
+               and isinstance(v.elt, ast.Name) and v.elt.id == v.generators[0].target.id and not v.generators[0].ifs
+               and ast.unparse(v.generators[0].iter) == "P") \
+        or ast.unparse(v) in ("list(P)", "P[:]", "P.copy()", "copy.copy(P)", "copy(P)")
+    if not is_copy: raise TranslateError(f"`coeffs` is not a shallow copy of P: {ast.unparse(cp)}")
     if not (isinstance(od, ast.Assign) and isinstance(od.targets[0], ast.Name)): raise TranslateError("order assignment")
     oname = od.targets[0].id
     order = int_expr(od.value, {"len_P": "lenP"})
@@ -648,6 +703,9 @@ def site_de_casteljau():
             and up.targets[0].value.id == "coeffs"):
         raise TranslateError("update is not `coeffs[..] = ..`")
     target = int_expr(up.targets[0].slice, {iv: "i"})
+    # store kind: a plain assignment of a freshly computed value re-binds the slot (the control point the slot referred
+    # to is untouched); `*=`/`+=` on coeffs[i] (AugAssign) or a bare alias would not be recognised above / here
+    if not isinstance(up.value, ast.BinOp): raise TranslateError("update value is not a freshly computed expression")
 
     def _atom_coeff(sym, node):
         if isinstance(node, ast.Subscript) and isinstance(node.value, ast.Name) and node.value.id == "coeffs":
@@ -667,7 +725,9 @@ def site_de_casteljau():
     out += f"def dcInner (order j : Nat) : Nat := {inner_b}\n"
     out += f"def dcTarget (i : Nat) : Nat := {target}\n"
     out += f"def dcUpdate (t : Rat) (coeffs : Nat → Rat) (i : Nat) : Rat := {update}\n"
-    out += f"def dcResult : Nat := {res}\n" + END
+    out += f"def dcResult : Nat := {res}\n"
+    out += "/-- `coeffs` is a shallow copy of `P`, and `coeffs[i] = <fresh value>` re-binds the slot (no in-place write into a control point) -/\n"
+    out += "def dcWorksOnCopy : Bool := true\ndef dcStoreRebinds : Bool := true\n" + END
     _, sha = T.write_generated("C19DC", out)
     return {"sha": sha, "raises": raise_cond, "order": order, "outer": outer_b, "inner": inner_b, "target": target, "update": update, "result": res}
 
